@@ -155,11 +155,27 @@ def run(pid, plan, tier, seed, work, replay, t0):
         viol, nrec = vlib.obs_check(allrec, work)
         cov["records_checked"] = nrec
     cov["schedules_replayed"] = len(schedules)
+    # crash points actually hit (C10): histogram per hook point
+    cps = {}
+    for f in files:
+        for line in open(f):
+            if '"crashPoint"' in line:
+                for nt in json.loads(line).get("notes") or []:
+                    if nt.get("kind") == "crashPoint":
+                        cps[nt.get("point")] = cps.get(nt.get("point"), 0) + 1
+    if cps:
+        cov["crash_points_hit"] = cps
     # (T) trace validation: are the recorded real-code behaviours behaviours of the specification?
     tv = {"total_runs": 0, "accepted_runs": 0, "drifts": []}
     if files and schedules:
         groups = {}
+        # runs with an armed crash point are judged by O only: the process dies in the middle of a handler, which is
+        # not a step of Raft.tla (the partial effects are exactly what C10 examines on the restart record)
+        cp = [s for s in schedules if any(st.get("k") == "crash" and st.get("at") for st in s["steps"])]
+        cov["crash_point_runs"] = len(cp)
         for s in schedules:
+            if any(st.get("k") == "crash" and st.get("at") for st in s["steps"]):
+                continue
             key = json.dumps([s["nodes"], s["voters"], s["nonvoters"], s["eager"]])
             groups.setdefault(key, []).append(s)
         for key, grp in groups.items():
